@@ -15,6 +15,7 @@ from harness.core import Property
 SCALARS = ("String", "Integer", "Boolean")
 NUMERIC = ("Float", "Decimal")   # oracle-only values: the Lean `Val` has no float / Decimal
 URL_PARTS = ["scheme", "netloc", "path", "params", "query", "fragment"]
+# nine names without netloc: only used to GENERATE custom all_parts values (the class default had this shape before KF-C15-b was repaired)
 HTTP_PARTS = ["scheme", "username", "password", "hostname", "port", "path", "params", "query", "fragment"]
 
 
@@ -817,7 +818,9 @@ def _http_params(v):
     req = dict([["scheme", ["http", "https"]], ["hostname", True]] if req is None else req)
     forb = v.get("forbidden_parts")
     forb = dict([["username", True], ["password", True]] if forb is None else forb)
-    known = HTTP_PARTS if v.get("all_parts") is None else v["all_parts"]
+    # all_parts: "Defaults to the full 10-tuple of names in urlparse's vocabulary for HTTP-like URLs" — the documented
+    # ten names, not whatever tuple the code happens to carry
+    known = HTTP_VOCABULARY if v.get("all_parts") is None else v["all_parts"]
     return req, forb, known
 
 
@@ -938,8 +941,6 @@ def oracle_case(case):
         fails += _canonical_clauses(case, obs, el, validator)
     if not obs["_warnings_unchanged"]:
         fails.append({"clause": "no-warnings", "expected": [], "observed": "warnings changed"})
-    if cls == "HTTPURLValidator" and obs["verdict"] is True and isinstance(obs["_value_before"], str):
-        fails += _http_rule_clauses(case, obs)
     return fails
 
 
@@ -983,29 +984,6 @@ def _canonical_clauses(case, obs, el, validator):
                 if again is not True or el.value != first:
                     fails.append({"clause": "canonical-url-is-stable", "expected": first, "observed": _jval(el.value)})
     return fails
-
-
-def _http_rule_clauses(case, obs):
-    """required_parts / forbidden_parts are 'a mapping of part names' of urlparse's vocabulary: a rule on ANY of the
-    ten names that the URL does not meet must not end in a True verdict (class of KF-C15-b: the name is not in
-    all_parts, so the loop never looks at it)"""
-    v = case["v"]
-    if v.get("all_parts") is not None:
-        return []  # the caller chose which parts are known; the documentation's ten names are the DEFAULT's claim
-    req, forb, known = _http_params(v)
-    lib = lib_of(v) or _urlparse
-    try:
-        vals = _http_part_values(lib.urlparse(obs["_value_before"]))
-    except Exception:
-        return []
-    out = []
-    for p in HTTP_VOCABULARY:
-        if p in known or vals[p] is ValueError:
-            continue
-        if not _required_holds(req.get(p), vals[p]) or not _forbidden_holds(forb.get(p), vals[p]):
-            out.append({"clause": "rule-on-a-documented-part-name-is-honoured", "expected": False, "observed": True,
-                        "_part": p, "_default_all_parts": v.get("all_parts") is None})
-    return out[:1]
 
 
 # ------------------------------------------------------------------ generators
@@ -1556,7 +1534,7 @@ def url_tags(case, obs):
                 if nm == "netloc":
                     t.append("url-param:rule-on-netloc")
         ap = v.get("all_parts")
-        t.append("url-param:all_parts=" + ("default" if ap is None else "with-netloc" if ap == HTTP_PARTS + ["netloc"] else "custom"))
+        t.append("url-param:all_parts=" + ("default" if ap is None else "nine+netloc-last" if ap == HTTP_PARTS + ["netloc"] else "without-netloc" if "netloc" not in ap else "custom"))
     if v["cls"] == "URLCanonicalizer":
         d = v.get("discard_parts")
         t.append("url-param:discard_parts=" + ("default" if d is None else "%d" % len(d) if all(x in URL_PARTS for x in d) else "bad-name"))
@@ -1769,7 +1747,7 @@ class C15(Property):
         "decides_partial", "C15_partial", "C15_full_fails", "setWith_nontext_key_reported", "setWith_bad_pairs_valid",
         "decides_urlValidator", "urlValidate_eq", "urlPartsLoop_eq",
         "decides_httpURL_partial", "httpURL_key", "httpPartsLoop_eq", "attr_table", "http_no_value_accepted", "C15_HttpFull_fails",
-        "http_rule_honoured_partial", "http_netloc_rule_ignored",
+        "http_rule_honoured_partial", "http_rule_honoured", "http_netloc_before_later_parts",
         "decides_urlCanonicalizer", "canonicalizer_value", "canonicalizer_failure_keeps_value", "canonicalizer_idempotent",
         "blankLoop_ok", "blankLoop_bad", "canonical_has_no_fragment", "value_preserved", "warn_eq_error", "verdict_ignores_validation_state", "notdup_ignores_valid",
         "decides_isEmail", "isEmail_length_on_idna", "isEmail_accepts_short_idna",
@@ -1782,7 +1760,7 @@ class C15(Property):
         "decides_valueBetween", "decides_mapEqual", "decides_notDuplicated",
         "decides_hasAtLeast", "decides_hasAtMost", "decides_hasBetween",
         "decides_setWithKnownFields", "decides_setWithAllFields", "decides_luhn10")]
-    generated_obligations = ["Flatland.C15.Proofs.shapes_ok"]
+    generated_obligations = ["Flatland.C15.Proofs.shapes_ok", "Flatland.C15.Proofs.default_all_parts_is_vocabulary"]
     quick_n = 80000
     case_timeout = 30   # per-case alarm (run_impl and oracle each): a hang is reported as an oracle failure
     thorough_n = 800000
@@ -1809,7 +1787,7 @@ class C15(Property):
                   "predicate on the parsed parts, which message key is noted, the canonical value is the rebuild of the kept parts, untouched on failure, idempotent when the rebuild is stable), "
                   "Luhn equivalence, first-occurrence, value preservation and message theorems are proved for all inputs on model A; IsEmail is decided relative to the opaque idna conversion; "
                   "C15_Full is refuted by the KF-C15-a witness (HTTPURLValidator on an element without a value: C15_full_fails) and C15_partial proves everything outside that class; "
-                  "KF-C15-b (a rule on `netloc` is never looked at: http_netloc_rule_ignored) is a second negation witness; urlparse itself, idna and the derived netloc attributes stay opaque")
+                  "the default all_parts is regenerated from the source and must be the ten documented names (default_all_parts_is_vocabulary), so a rule on ANY documented part name is honoured (http_rule_honoured; KF-C15-b repaired in /repo); urlparse itself, idna and the derived netloc attributes stay opaque")
     technique = "Lean 4 model + theorems (refinement to the documented predicate per class) + differential correspondence + Python oracle"
     rule = ("every validator class x random parameterisations x String/Integer/Boolean elements set with None / adapted / unadapted text / blank / never set, "
             "List/Array with 0-5 members, members with duplicates at random positions, Dicts set with dict / pairs / flat / non-iterable / malformed raw values, "
@@ -1887,9 +1865,22 @@ class C15(Property):
         out.append({"v": {"cls": "ValueIn", "valid_options": "yes"}, "build": {"kind": "Integer", "name": "yn", "set": 5}})
         out.append({"v": {"cls": "ValueIn", "valid_options": "yes"}, "build": {"kind": "String", "name": "yn", "set": "es"}})
         out.append({"v": {"cls": "URLCanonicalizer", "discard_parts": ["scheme", "path"]}, "build": {"kind": "String", "name": "url", "set": None}})
-        # open KF-C15-b: a rule on netloc is never looked at (all_parts has nine of the ten documented names)
+        # fixed KF-C15-b (all_parts lacked netloc, a rule on it was never looked at): False, one message
         out.append({"v": {"cls": "HTTPURLValidator", "required_parts": [["netloc", ["example.com"]]]},
                     "build": {"kind": "String", "name": "url", "set": "http://evil.example/"}})
+        out.append({"v": {"cls": "HTTPURLValidator", "required_parts": [["netloc", ["example.com"]]]},
+                    "build": {"kind": "String", "name": "url", "set": "h"}})
+        out.append({"v": {"cls": "HTTPURLValidator", "forbidden_parts": [["netloc", True]], "required_parts": []},
+                    "build": {"kind": "String", "name": "url", "set": "http://h/"}})
+        # netloc is visited second: a URL violating a netloc rule AND a later part's rule gets the netloc message,
+        # one violating a scheme rule and a netloc rule gets the scheme message (every key with its own text)
+        km = [[k, "K:" + k + " %(label)s"] for k in URL_KEYS["HTTPURLValidator"]]
+        out.append({"v": {"cls": "HTTPURLValidator", "required_parts": [["port", ["80"]]], "forbidden_parts": [["netloc", ["evil.example"]]],
+                          "messages": km}, "build": {"kind": "String", "name": "url", "set": "http://evil.example/"}})
+        out.append({"v": {"cls": "HTTPURLValidator", "required_parts": [["scheme", ["https"]]], "forbidden_parts": [["netloc", ["evil.example"]]],
+                          "messages": km}, "build": {"kind": "String", "name": "url", "set": "http://evil.example/"}})
+        out.append({"v": {"cls": "HTTPURLValidator", "required_parts": [["netloc", ["example.com"]]], "forbidden_parts": [["username", True]],
+                          "messages": km}, "build": {"kind": "String", "name": "url", "set": "http://u@evil.example/"}})
         out.append({"v": {"cls": "HTTPURLValidator", "required_parts": [["netloc", ["example.com"]]], "all_parts": HTTP_PARTS + ["netloc"]},
                     "build": {"kind": "String", "name": "url", "set": "http://evil.example/"}})
         # one witness per message key / branch of the URL validators, every message attribute with its own text
@@ -2037,9 +2028,6 @@ class C15(Property):
                 and cl == "verdict-equals-documented-condition" and failure.get("observed") is True \
                 and failure.get("_errors_unchanged") and failure.get("_warnings_unchanged") and failure.get("_value_unchanged"):
             return "KF-C15-a"
-        if v["cls"] == "HTTPURLValidator" and cl == "rule-on-a-documented-part-name-is-honoured" and failure.get("_part") == "netloc" \
-                and failure.get("_default_all_parts"):
-            return "KF-C15-b"
         b = case["build"]
         if v["cls"] == "NotDuplicated" and b.get("member") == "Decimal" and "index" in b \
                 and cl == "returns-a-verdict-without-raising" and failure.get("observed") == "InvalidOperation" \
